@@ -231,4 +231,19 @@ Section DispatchLemmas.
     List.find (fun kc => str_eqb (ni_name (n_info (snd kc))) a0) (n_cmds (lv_node pl)) = None ->
     run_help specs st (a0 :: rest) = DErr (mkErrA ENoHelpTopic [a0] (msg_no_help_topic a0) false).
   Proof. unfold run_help. intros -> ->. reflexivity. Qed.
+
+  (* C10, end to end: Parse succeeded, no help, nothing required is missing, and the node reached by
+     the command tokens has a user function: Dispatch is exactly one run of that function with the
+     remaining arguments Parse returned and that node's view *)
+  Theorem parse_then_dispatch root st0 args w st rem nd id :
+    parse root st0 args = mkRes w (Ok (st, rem)) ->
+    follow root (select_cmds args (labels (init root st0) args)) = Some nd ->
+    ni_fn (n_info nd) = FnUser id ->
+    called (store st) (n_opts root) (ni_helpname (n_info nd)) = false ->
+    required_error specs (store st) nd = None ->
+    dispatch specs root st rem = DRan id rem (view_of nd (store st)).
+  Proof.
+    intros P F U H R. pose proof (selected_node root st0 args w st rem P) as S.
+    rewrite S in F. inversion F; subst nd. rewrite (dispatch_runs root st rem H R). rewrite U. reflexivity.
+  Qed.
 End DispatchLemmas.
